@@ -20,9 +20,9 @@ CHECKS = {
     "C19": {
         "level": "exploration",
         "groups": [
-            {"name": "c19", "run": "^TestC19_", "shards": {"quick": 4, "thorough": 16},
+            {"name": "c19", "run": "^TestC19_", "shards": {"quick": 8, "thorough": 16},
              "timeout": {"quick": 600, "thorough": 3000},
-             "checks": ["c19-queue"]},
+             "checks": ["c19-queue", "c19-e2e-latency"]},
         ],
     },
     "C09": {
@@ -46,9 +46,9 @@ CHECKS = {
     "C13": {
         "level": "exploration",
         "groups": [
-            {"name": "c13", "run": "^TestC13_", "shards": {"quick": 4, "thorough": 16},
+            {"name": "c13", "run": "^TestC13_", "shards": {"quick": 8, "thorough": 16},
              "timeout": {"quick": 600, "thorough": 3000},
-             "checks": ["c13-batcher"]},
+             "checks": ["c13-batcher", "c13-limits"]},
         ],
     },
     "C15": {
